@@ -179,3 +179,17 @@ Definition enc_state (s : state) : list Z :=
 Definition hmix (h x : Z) : Z := Z.land (h * 131 + x + 7) 2305843009213693951.   (* 2^61 - 1 as a bit mask *)
 Definition fingerprint (maxv : Z) (acts : list action) : Z :=
   fold_left (fun h s => fold_left hmix (enc_state s) h) (trace maxv (init maxv) acts) 7.
+
+(** Compact schedule encoding (correspondence only: a list literal with notations costs Coq milliseconds per action to
+    parse, one numeral nothing).  A schedule of [k] actions is one number in base 2^20, least significant digit first;
+    digit = kind + 8 * arg with kind 1 = Tick, 2 = Spawn arg, 3 = Exit arg false, 4 = Exit arg true, 5 = Cancel arg.
+    A wrong decoding would show up as a disagreement with the implementation, never hide one. *)
+Definition decode_action (d : Z) : action :=
+  let k := d mod 8 in let a := d / 8 in
+  if k =? 2 then Spawn a else if k =? 3 then Exit (Z.to_nat a) false else if k =? 4 then Exit (Z.to_nat a) true
+  else if k =? 5 then Cancel (Z.to_nat a) else Tick.
+Fixpoint decode (k : nat) (z : Z) : list action :=
+  match k with
+  | O => []
+  | S m => decode_action (Z.land z 1048575) :: decode m (Z.shiftr z 20)
+  end.
